@@ -267,7 +267,7 @@ pub fn run(rep: &mut Report, thorough: bool, random_cases: u64, replay: Option<&
             return;
         }
     }
-    let maxlen = if thorough { 4 } else { 3 };
+    let maxlen = if cfg!(miri) { 1 } else if thorough { 4 } else { 3 };
     let k = ALPHABET.len() as u64;
     // enumerate: sequence encoded in base (k*2)
     let base = k * 2;
@@ -321,13 +321,14 @@ pub fn run(rep: &mut Report, thorough: bool, random_cases: u64, replay: Option<&
         }
     }
     rep.count("exhaustive_cases", exhaustive_cases);
-    rep.exhaustive = Some(true);
+    rep.exhaustive = Some(!cfg!(miri));
     rep.note(&format!("exhaustive part complete for sequences of <= {maxlen} lines; the random part is sampled"));
     // random long sequences
     let seed = rep.seed;
     let results = crate::util::par_map(random_cases, |i| {
         let mut rng = Rng::new(seed.wrapping_mul(31_000_003).wrapping_add(i));
         let n = match rng.below(4) {
+            _ if cfg!(miri) => rng.range(1, 12),
             0 => rng.range(1, 8),
             1 => rng.range(8, 60),
             _ => rng.range(2, 400),
